@@ -54,6 +54,7 @@ Definition model_table (n : nat) (specs : list (@zspec pv)) : res (list (option 
 Inductive prov :=
 | PvRaw                       (* least-squares iterate / raw initial factor / the operator's input, no operator applied *)
 | PvUser (m : nat)            (* the user's initial factor of mode m, untouched *)
+| PvUserW (m : nat)           (* the user's initial factor of mode m multiplied column-wise by the weights of the user's CP tensor *)
 | PvOp (k : kind) (p : pv)    (* output of the operator of constraint k with parameter p *)
 | PvOther.                    (* implementation side only: none of the above *)
 
@@ -61,6 +62,7 @@ Definition prov_eqb (a b : prov) : bool :=
   match a, b with
   | PvRaw, PvRaw => true
   | PvUser x, PvUser y => Nat.eqb x y
+  | PvUserW x, PvUserW y => Nat.eqb x y
   | PvOp k1 p1, PvOp k2 p2 => kind_eqb k1 k2 && pv_eqb p1 p2
   | _, _ => false
   end.
@@ -71,12 +73,17 @@ Definition tag_op (k : kind) (p : pv) (_ : prov) : prov := PvOp k p.
 Definition tag_env (err_ok : bool) : env (M := prov) :=
   mkEnv (fun _ _ _ _ => PvRaw) (fun _ _ _ _ _ _ => false) (fun _ _ _ => false) (fun _ _ => err_ok).
 
-(* n_init: the number of factors of the user's CP tensor (= n for a computed initialisation) *)
-Definition model_trace (n : nat) (specs : list (@zspec pv)) (user_init : bool) (n_init : nat) (err_ok : bool) (fixed : list nat)
+(* n_init: the number of factors of the user's CP tensor (= n for a computed initialisation).
+   weights_one: `tl.all(weights == 1)` of the user's CP tensor (weights None count as ones); otherwise the initialiser multiplies the
+   weights into the LAST factor (`factors[-1] = factors[-1] * weights`) before anything else - IUser is the list after that. *)
+Definition user_tags (n_init : nat) (weights_one : bool) : list prov :=
+  if weights_one then map PvUser (seq 0 n_init)
+  else match n_init with O => [] | S k => map PvUser (seq 0 k) ++ [PvUserW k] end.
+Definition model_trace (n : nat) (specs : list (@zspec pv)) (user_init : bool) (n_init : nat) (weights_one : bool) (err_ok : bool) (fixed : list nat)
            (n_outer n_inner : nat) : res (list prov) :=
   if Nat.eqb (length specs) 12 then
     constrained_cp PvOther tag_op (zvalidate pv_truthy n (with_names specs)) (fun _ _ => PvRaw) (fun _ _ => PvRaw) (tag_env err_ok)
-                   n (if user_init then IUser (map PvUser (seq 0 n_init)) else IComputed (repeat PvRaw n))
+                   n (if user_init then IUser (user_tags n_init weights_one) else IComputed (repeat PvRaw n))
                    fixed n_outer n_inner PvRaw
   else Err.
 
@@ -200,7 +207,7 @@ Definition call_agree (k : kind) (p : pv) (aux : Q) (rows out : QM) (atol rtol :
 
 Inductive case :=
 | CTable (id n : nat) (specs : list (@zspec pv)) (expected : res (list (option (kind * pv))))
-| CTrace (id n : nat) (specs : list (@zspec pv)) (user_init : bool) (n_init : nat) (err_ok : bool) (fixed : list nat)
+| CTrace (id n : nat) (specs : list (@zspec pv)) (user_init : bool) (n_init : nat) (weights_one : bool) (err_ok : bool) (fixed : list nat)
          (n_outer n_inner : nat) (expected : res (list prov))
 | CAdmm (id n : nat) (specs : list (@zspec pv)) (order n_iter : nat) (expected : res prov)
 | CProx (id n : nat) (specs : list (@zspec pv)) (order : nat) (expected : res prov)
@@ -210,12 +217,53 @@ Inductive case :=
 Definition agree (c : case) : bool :=
   match c with
   | CTable _ n specs expected => res_eqb (list_eqb entry_eqb) (model_table n specs) expected
-  | CTrace _ n specs ui nin eok fixed no ni expected => res_eqb (list_eqb prov_eqb) (model_trace n specs ui nin eok fixed no ni) expected
+  | CTrace _ n specs ui nin wone eok fixed no ni expected => res_eqb (list_eqb prov_eqb) (model_trace n specs ui nin wone eok fixed no ni) expected
   | CAdmm _ n specs order ni expected => res_eqb prov_eqb (model_admm n specs order ni) expected
   | CProx _ n specs order expected => res_eqb prov_eqb (model_prox n specs order) expected
   | CFeas _ k p rows => feasb k p rows
   | CCall _ k p aux rows out atol rtol => call_agree k p aux rows out atol rtol
   end.
 Definition ident (c : case) : nat :=
-  match c with CTable i _ _ _ => i | CTrace i _ _ _ _ _ _ _ _ _ => i | CAdmm i _ _ _ _ _ => i | CProx i _ _ _ _ => i | CFeas i _ _ _ => i | CCall i _ _ _ _ _ _ _ => i end.
+  match c with CTable i _ _ _ => i | CTrace i _ _ _ _ _ _ _ _ _ _ => i | CAdmm i _ _ _ _ _ => i | CProx i _ _ _ _ => i | CFeas i _ _ _ => i | CCall i _ _ _ _ _ _ _ => i end.
 Definition failing := failing_ids agree ident.
+
+(* ------------------------------------------------------------------ (g) static tie: pieces of the model regenerated from the CURRENT
+   Python source by an ast translator (harness/props/C11.py, corr:C11-static) and decided here.
+   SKinds: `constraints_list` / `constraints_names` of validate_constraints = the keyword order of the model (all_kinds).
+   SDispatch: the if/elif chain of proximal_operator as a table (Model/ConstraintsOps.v); `dispatch_ok` is the hypothesis of
+     Proofs/ConstraintsProofsStatic.v dispatch_table_sound / dispatch_table_feasible (the table denotes op_c12, hence feasible).
+   SForward: at every call site between ConstrainedCP, constrained_parafac, initialize_constrained_parafac, admm, proximal_operator
+     and validate_constraints each of the twelve keywords is passed on under its own name (the model hands ONE request `sp` to every
+     call), with the `order=` / `n_const=` expressions the model assumes (the loop variable over modes_list / range(ndim); the
+     function's own parameter; tl.ndim(tensor)). *)
+Inductive site := SProxToValidate | SAdmmToProx | SInitToProx | SCpToValidate | SCpToInit | SCpToAdmm | SClassToCp | SClassInit.
+Inductive oexp := OParam | OLoopRangeNdim | OLoopModesList | ONone | OOther.
+Inductive nexp := NParam | NNdimTensor | NNone | NOther.
+Inductive scase :=
+| SKinds (id : nat) (vars names : list kind)
+| SDispatch (id : nat) (none_returns_tensor : bool) (tbl : list (kind * dop)) (else_raises : bool)
+| SForward (id : nat) (s : site) (pairs : list (kind * kind)) (o : oexp) (nc : nexp).
+
+Definition site_expect (s : site) : oexp * nexp :=
+  match s with
+  | SProxToValidate | SAdmmToProx => (OParam, NParam)
+  | SInitToProx => (OLoopRangeNdim, NNdimTensor)
+  | SCpToValidate => (ONone, NNdimTensor)          (* order omitted: the default 0 *)
+  | SCpToAdmm => (OLoopModesList, NNdimTensor)
+  | SCpToInit | SClassToCp | SClassInit => (ONone, NNone)
+  end.
+Definition oexp_id (o : oexp) : nat := match o with OParam => 0 | OLoopRangeNdim => 1 | OLoopModesList => 2 | ONone => 3 | OOther => 4 end.
+Definition nexp_id (o : nexp) : nat := match o with NParam => 0 | NNdimTensor => 1 | NNone => 2 | NOther => 3 end.
+Definition forward_ok (pairs : list (kind * kind)) : bool :=
+  Nat.eqb (length pairs) 12 &&
+  forallb (fun k => Nat.eqb (length (filter (fun ab : kind * kind => kind_eqb (fst ab) k) pairs)) 1 &&
+                    Nat.eqb (length (filter (fun ab : kind * kind => kind_eqb (fst ab) k && kind_eqb (snd ab) k) pairs)) 1) all_kinds.
+Definition static_agree (c : scase) : bool :=
+  match c with
+  | SKinds _ vars names => list_eqb kind_eqb vars all_kinds && list_eqb kind_eqb names all_kinds
+  | SDispatch _ none_ok tbl else_raises => none_ok && Nat.eqb (length tbl) 12 && dispatch_ok tbl && else_raises
+  | SForward _ s pairs o nc =>
+      forward_ok pairs && Nat.eqb (oexp_id o) (oexp_id (fst (site_expect s))) && Nat.eqb (nexp_id nc) (nexp_id (snd (site_expect s)))
+  end.
+Definition sident (c : scase) : nat := match c with SKinds i _ _ => i | SDispatch i _ _ _ => i | SForward i _ _ _ _ => i end.
+Definition failing_static := failing_ids static_agree sident.
